@@ -2,6 +2,8 @@ import Abyss.Props.C07
 import Abyss.Props.C03
 import Abyss.Props.RaBufP
 import Abyss.Props.GenCorollaries
+import Abyss.Props.GenCorollaries2
+#print axioms Abyss.C07_generated_bucket_independent
 #print axioms Abyss.openMap_reopen
 #print axioms Abyss.openMap_existing
 #print axioms Abyss.C07_bucket_independent
